@@ -447,7 +447,7 @@ _ADDED6 = {
     "C02": "Every third message of a sender has no content at all. `TestVerif_C02_TransientWriteFailure`: one failing write while a message is opened; the next message is opened first, then the failed one again (it is still inside the window).",
     "C03": "Forged entries also arrive by replication from a branch concurrent with the victim's history (a replica that merged nothing, Lamport time 1), alone or covered by a genuine entry of the forger in the same batch.",
     "C04": "Controlled schedules (DFS + rapid) of overlapping index passes of the writer's task and the replication task over a log that grows meanwhile (instrumented index; the final state must be the state of the entries held).",
-    "C05": "Single transient datastore write or read failures while an announcement is registered, also a re-delivered one (an announced key must be usable). Distribution half: one device may deactivate the group after its activation and activate it again at the end (others join meanwhile).",
+    "C05": "Single transient datastore write or read failures while an announcement is registered, also a re-delivered one (an announced key must be usable). Distribution half: one device may deactivate the group after its activation and activate it again at the end (others join meanwhile). `TestVerif_C05_OutageAtFirstAnnouncement`: a device cannot read its chain-key record while a member's first device is announced; after the recovery the member's second device is announced and both must end up with the key.",
     "C06": "Recorded responder frames replayed to a requester that asks for the same account again. Signatures ground against small-order keys. Two or three honest sessions between three accounts alive at once in one process, their frames delivered one at a time in generated interleavings (crossing requests included): all must complete.",
     "C07": "Contacts whose key is not a point of the curve.",
     "C08": "Group-context layer with an undecodable entry inside a delivered batch; the receiving device may be a second device of the sender's own account (multi-member group or account group); in a quarter of the cases the sender's announcement arrives while the receiver's activation is held in its catch-up.",
